@@ -266,8 +266,13 @@ def _append_sequence(b, names):
         if lab is None and mir.has(v, lambda x: x[0] == "const" and x[1] == 23) and mir.has(v, lambda x: x[0] == "call" and x[1].endswith("to_be_bytes")):
             lab = "named_curve"
         if lab:
-            out.append((rank[bi], lab))
-    return [l for _, l in sorted(out)]
+            out.append((rank[bi], lab, b.term_operand(t["a"][0])))
+    out.sort(key=lambda x: x[0])
+    pk = [x for x in out if x[1] == "public_key"]
+    if pk:
+        # only what is appended to the same buffer as the public key
+        out = [x for x in out if x[2] == pk[-1][2]]
+    return [x[1] for x in out]
 
 
 def r02_5(ctx):
